@@ -115,6 +115,12 @@ Theorem sites_tie :
 Proof. split; vm_compute; reflexivity. Qed.
 Print Assumptions sites_tie.
 
+(* the same for the set-order / hash() / id() / repr() sites of the WHOLE package (a new
+   `hash(...)` anywhere in the compiler breaks this; nothing is proved about these sites) *)
+Theorem all_sites_tie : gen_all_set_sites = map fst reviewed_all_set_sites.
+Proof. vm_compute; reflexivity. Qed.
+Print Assumptions all_sites_tie.
+
 (* ... and its only oracle is the one diag_oracle_independent quantifies over *)
 Theorem oracle_inventory :
   oracles_of reviewed_set_sites =
